@@ -93,6 +93,13 @@ Theorem C11_src_twisted_connection_ready_is_model : forall ident secret k body n
                            (match cnonce c with None => Some rand | n => n end)) s).
 Proof. exact tw_connection_ready_src_eq. Qed.
 
+(* the blocking thread session, its application-facing methods translated from hpfeeds/blocking/session.py on every run (pytrans7.py; BlkGenEq.v) *)
+From HP Require Import BlkSession BlkFacts BlkGen BlkGenEq.
+Theorem C11_src_blocking_session_subscribe_is_model : forall ident secret c s, BlkSession_subscribe ident secret c s = bstep ident secret s (BApp (FSub c)).
+Proof. exact blk_subscribe_src_eq. Qed.
+Theorem C11_src_blocking_session_run_is_model : forall ident secret es, brun_src ident secret es = brun ident secret es.
+Proof. exact brun_src_eq. Qed.
+
 Print Assumptions C11_asyncio.
 Print Assumptions C11_blocking_session_refuted.
 Print Assumptions C11_blocking_session_partial.
@@ -109,3 +116,5 @@ Print Assumptions C11_src_asyncio_connection_ready_is_model.
 Print Assumptions C11_src_twisted_run_is_model.
 Print Assumptions C11_src_twisted.
 Print Assumptions C11_src_twisted_connection_ready_is_model.
+Print Assumptions C11_src_blocking_session_subscribe_is_model.
+Print Assumptions C11_src_blocking_session_run_is_model.
